@@ -175,7 +175,23 @@ def check_trace(runner, tr, cfg, stats, counting_get):
             if len(r) != len(ref.items) or not all(any(val.same(x, y[0]) for y in ref.items) for x in r):
                 bad = 'iterkeys yielded %r, reference keys %r' % (r, [x[0] for x in ref.items])
         elif op == 'peekitem':
-            pass
+            # inspects one end: expired items found there are removed, the first live one is returned
+            order = list(ref.items)[::-1] if a.get('last', True) else list(ref.items)
+            found = None
+            for x in order:
+                if ref.live(x, now):
+                    found = x
+                    break
+                ref.items.remove(x)
+            if found is None:
+                if r != ('raise', 'KeyError-empty'):
+                    bad = 'peekitem returned %r although no live item is left' % (r,)
+            elif isinstance(r, tuple) and r and r[0] == 'raise':
+                bad = 'peekitem raised although %r is live' % (found[0],)
+            else:
+                (k_, v_), e_, t_ = r
+                if not (val.same(k_, found[0]) and val.same(v_, found[1]) and e_ == found[2] and t_ == found[3]):
+                    bad = 'peekitem returned %r, reference %r' % (r, tuple(found))
         elif op == 'stats':
             if r != (ref.hits, ref.misses):
                 bad = 'stats returned %r, reference %r' % (r, (ref.hits, ref.misses))
@@ -210,7 +226,7 @@ def check_trace(runner, tr, cfg, stats, counting_get):
 
 
 W = {'set': 16, 'add': 8, 'get': 14, 'contains': 6, 'touch': 5, 'incr': 7, 'pop': 5, 'delete': 5, 'delitem': 2,
-     'push': 0, 'pull': 0, 'peek': 0, 'peekitem': 0, 'evict': 2, 'expire': 3, 'cull': 1, 'clear': 1, 'len': 4, 'iter': 3,
+     'push': 0, 'pull': 0, 'peek': 0, 'peekitem': 3, 'evict': 2, 'expire': 3, 'cull': 1, 'clear': 1, 'len': 4, 'iter': 3,
      'reversed': 1, 'iterkeys': 2, 'stats': 2}
 
 
@@ -299,6 +315,57 @@ def exhaustive_short(ctx, res, stats, length):
     return terms, recs
 
 
+def directed(ctx, res, stats):
+    """bulk removal across the 100-row page size: evict of one tag, clear, expire, with more than one page
+    of matching rows; peekitem when every item has expired"""
+    terms, recs = [], []
+    for n_tag, n_other in ((250, 50), (100, 3), (101, 0)):
+        cfg = seqdrv.Config(policy='none', min_file_size=16, cull_limit=0, tag_index=(n_tag % 2 == 0))
+        objs = ['k%d' % i for i in range(n_tag + n_other)] + [7]
+        vi = len(objs) - 1
+        hist = []
+        now = 1000.0
+        for i in range(n_tag + n_other):
+            hist.append({'op': 'set', 'args': {'k': i, 'v': vi, 'expire': None, 'tag': 'red' if i < n_tag else 'blue'}, 'now': now})
+        hist.append({'op': 'evict', 'args': {'tag': 'red'}, 'now': now + 1})
+        hist.append({'op': 'len', 'args': {}, 'now': now + 1})
+        hist.append({'op': 'iter', 'args': {}, 'now': now + 1})
+        hist.append({'op': 'clear', 'args': {}, 'now': now + 2})
+        hist.append({'op': 'len', 'args': {}, 'now': now + 2})
+        r = seqdrv.Runner(ctx, cfg, observe_every=1)
+        r.objs = objs
+        tr = r.run(hist)
+        viol = check_trace(r, tr, cfg, stats, True)
+        res.count(['directed-evict', n_tag, n_other], nontrivial=True)
+        for sig, what, idx in viol[:1]:
+            res.violations.append(fw.Violation(sig, what, dict(gen_hist.history_json(objs, hist[:idx + 1], cfg), check='history', failing_call=idx)))
+    # every item expired, then peekitem from either end
+    for last in (True, False):
+        cfg = seqdrv.Config(policy='none', min_file_size=16, cull_limit=0)
+        objs = ['a', 'b', 'c', 5]
+        hist = [{'op': 'set', 'args': {'k': 0, 'v': 3, 'expire': 1, 'tag': None}, 'now': 1000.0},
+                {'op': 'set', 'args': {'k': 1, 'v': 3, 'expire': 2, 'tag': None}, 'now': 1000.0},
+                {'op': 'set', 'args': {'k': 2, 'v': 3, 'expire': 1, 'tag': None}, 'now': 1000.0},
+                {'op': 'peekitem', 'args': {'last': last}, 'now': 1010.0},
+                {'op': 'len', 'args': {}, 'now': 1010.0},
+                {'op': 'iter', 'args': {}, 'now': 1010.0}]
+        r = seqdrv.Runner(ctx, cfg, observe_every=1)
+        r.objs = objs
+        tr = r.run(hist)
+        viol = check_trace(r, tr, cfg, stats, True)
+        res.count(['directed-peekitem', last], nontrivial=True)
+        for sig, what, idx in viol[:1]:
+            res.violations.append(fw.Violation(sig, what, dict(gen_hist.history_json(objs, hist[:idx + 1], cfg), check='history', failing_call=idx)))
+
+        class G:
+            pass
+        g = G()
+        g.objs = objs
+        terms.append(seqdrv.history_check_term(r, tr, cfg))
+        recs.append((g, hist, cfg))
+    return terms, recs
+
+
 def correspondence(ctx, res, terms, recs):
     out, errors = seqdrv.model_first_mismatch('c03', terms, chunk=2)
     for e in errors:
@@ -325,8 +392,9 @@ def run(ctx, big=False):
     t0, r0 = exhaustive_short(ctx, res, stats, 3 if not thorough else 4)
     t1, r1 = run_histories(ctx, res, 20 if not thorough else 150, 60 if not thorough else 150, stats)
     t2, r2 = run_histories(ctx, res, 2 if not thorough else 10, 420, stats, many_keys=True)
+    t3, r3 = directed(ctx, res, stats)
     if not ctx.search_mode:
-        correspondence(ctx, res, t0 + t1 + t2, r0 + r1 + r2)
+        correspondence(ctx, res, t0 + t1 + t2 + t3, r0 + r1 + r2 + r3)
     res.extra.update({'op_histogram': stats['ops'], 'items_removed_lazily_after_expiry': stats['lazy_expired'],
                       'items_evicted_at_limit': stats['evicted'], 'largest_table': stats['max_rows'],
                       'short_sequences': stats['short_sequences']})
